@@ -136,10 +136,10 @@ PROPS["C09"] = {
 }
 
 PROPS["C03"] = {
-    "modules": ["C03", "NonVacuity"], "required_theorems": ["C03_holds", "step03_enter", "step03_success", "step03_unsettled", "step03_noenter"], "monitors": ["C03"],
+    "modules": ["C03", "NonVacuity"], "required_theorems": ["C03_holds", "step03_enter", "step03_success", "step03_unsettled", "step03_noenter", "intactChecks_ok"], "monitors": ["C03"],
     "fields": ["ret", "pj", "pd", "sj"],
-    "campaign": camp([("lifecycle", 500), ("rollback", 400), ("mixed", 300), ("damage", 200), ("chaos", 200)],
-                     [("lifecycle", 8000), ("rollback", 6000), ("mixed", 4000), ("damage", 3000), ("chaos", 3000), ("signing", 3000), ("release", 2000)]),
+    "campaign": camp([("lifecycle", 500), ("rollback", 400), ("mixed", 300), ("damage", 200), ("chaos", 200), ("signing", 500)],
+                     [("lifecycle", 8000), ("rollback", 6000), ("mixed", 4000), ("damage", 3000), ("chaos", 3000), ("signing", 6000), ("release", 2000)]),
     "assumptions": ["InitKey: every effective initialisation of a history configures the same public key",
                     "a server that re-issues the number of the last good patch with OTHER bytes ends the tracking of that patch (a re-install writes what was downloaded and verified - C05); with the same bytes the artifact is unchanged and stays tracked",
                     "the last good patch is tracked from a success report after which every record of its number matches the artifact in place; outside damage to it or to the state files ends the tracking (as the property says)"],
